@@ -9,7 +9,11 @@ Three oracles per generated score:
 """
 
 import io
+import os
 import re
+import tempfile
+import warnings
+import zipfile
 import xml.etree.ElementTree as ET
 from collections import Counter, defaultdict
 from fractions import Fraction
@@ -35,32 +39,94 @@ ASSUMPTIONS = [
     "direction texts are drawn from a small vocabulary and built through parse_direction, so only objects the importer itself would create are generated",
 ]
 
-PROFILE = G.profile(max_bars=3, max_voices=2, max_staves=2, midbar_changes=True, irregular=True, clefs=True, key_changes=True,
-                    missing_voice_staff=False, unique_pitch_per_time=True, alters=(-2, -1, 0, 0, 0, 1, 2))
-ARTICULATIONS = ["accent", "staccato", "tenuto", "strong-accent", "staccatissimo"]
-DYNAMICS = ["p", "f", "mf", "pp", "sfz", "fp"]
-WORDS = ["dolce", "cresc.", "rit.", "Allegro"]
+PROFILE = G.profile(max_bars=3, max_voices=2, max_staves=3, midbar_changes=True, irregular=True, clefs=True, key_changes=True,
+                    missing_voice_staff=False, unique_pitch_per_time=True, alters=(-2, -1, 0, 0, 0, 1, 2),
+                    clef_line_none=True, tuplet_edge_rests=True)
+BASIC_ARTICULATIONS = ["accent", "staccato", "tenuto", "strong-accent", "staccatissimo"]
+# every articulation the importer reads (importmusicxml.get_articulations)
+ARTICULATIONS = BASIC_ARTICULATIONS + ["detached-legato", "spiccato", "scoop", "plop", "doit", "falloff", "breath-mark", "caesura", "stress",
+                                       "unstress", "soft-accent"]
+BASIC_DYNAMICS = ["p", "f", "mf", "pp", "sfz", "fp"]
+# every dynamics mark the importer maps to a direction class (importmusicxml.DYN_DIRECTIONS)
+DYNAMICS = BASIC_DYNAMICS + ["ff", "fff", "ffff", "fffff", "ffffff", "n", "mp", "ppp", "pppp", "ppppp", "pppppp", "pf", "rf", "rfz", "fz", "sf",
+                             "sffz", "sfp", "sfzp", "sfpp"]
+BASIC_WORDS = ["dolce", "cresc.", "rit.", "Allegro"]
+# texts parse_direction turns into other direction classes, into two directions, or leaves as score.Words
+WORDS = BASIC_WORDS + ["a tempo", "Tempo I", "poco a poco cresc.", "molto espressivo", "legato", "rinf.", "dim. e rit.", "con brio", "arco",
+                       "Violin solo"]
+PLAIN_WORDS = ["con brio", "arco", "Violin solo"]
+CHORD_SYMBOLS = [["C", "major"], ["G", "dominant"], ["A", "minor"], ["F", None]]
 
 
 # ------------------------------------------------------------------ generator
+def _pitch_of(n):
+    return G.midi_pitch(n["step"], n["alter"], n["octave"])
+
+
+def _pitch_free(notes, me, pitch, t0, t1):
+    """No other pitched note of the part with this pitch touches [t0, t1]."""
+    for n in notes:
+        if n is me or n["kind"] not in ("note", "grace"):
+            continue
+        if _pitch_of(n) == pitch and n["t"] <= t1 and n["t"] + n["dur"] >= t0:
+            return False
+    return True
+
+
+def _seg_bounds(ps):
+    """Positions no note may cross: bar lines and division changes."""
+    return sorted(set([m[0] for m in ps["measures"]] + [m[1] for m in ps["measures"]] + [t for t, _ in ps["divs"]]))
+
+
 @st.composite
 def decorate(draw, ps, prefix):
     ps = dict(ps)
     notes = [dict(n) for n in ps["notes"]]
     ps["notes"] = notes
-    pitched = [n for n in notes if n["kind"] == "note"]
+    byid = {n["id"]: n for n in notes}
+    tuplet_ends = set(x for tp in ps.get("tuplets", []) for x in tp[:2])
+
+    def is_main_of_grace(n):
+        return any(g.get("grace_next") == n["id"] for g in notes)
+
+    # ---- gaps: rests removed, so that voices (and whole measures) are not filled to the end -------
+    if draw(st.integers(0, 2)) == 0:
+        keep = []
+        for n in notes:
+            plain_rest = n["kind"] == "rest" and not (n.get("sym") or {}).get("actual_notes") and n["id"] not in tuplet_ends
+            if plain_rest and draw(st.booleans()):
+                continue
+            keep.append(n)
+        notes[:] = keep
+    # ---- further ties: a second tied member of a chord, ties between voices ---------------------------
+    if draw(st.integers(0, 2)) == 0:
+        srcs = [n for n in notes if n["kind"] == "note" and not n.get("tie_next")]
+        for a in srcs:
+            if draw(st.integers(0, 2)) != 0:
+                continue
+            # (the candidate is re-pitched; every other note must stay clear of the pitch while it sounds)
+            cands = [b for b in notes if b["kind"] == "note" and b is not a and b["t"] == a["t"] + a["dur"] and b["dur"] > 0
+                     and not b.get("tie_prev") and not b.get("tie_next")
+                     and all(o is a or o is b or o["kind"] not in ("note", "grace") or _pitch_of(o) != _pitch_of(a)
+                             or o["t"] > b["t"] + b["dur"] or o["t"] + o["dur"] < b["t"] for o in notes)]
+            if not cands:
+                continue
+            b = cands[draw(st.integers(0, len(cands) - 1))]
+            b["step"], b["alter"], b["octave"] = a["step"], a["alter"], a["octave"]
+            a["tie_next"] = b["id"]
+            b["tie_prev"] = a["id"]
     for n in notes:
         if n["kind"] in ("note", "grace") and draw(st.integers(0, 5)) == 0:
-            n["art"] = sorted(draw(st.lists(st.sampled_from(ARTICULATIONS), min_size=1, max_size=2, unique=True)))
-        if n["kind"] == "note" and draw(st.integers(0, 6)) == 0:
+            pool = BASIC_ARTICULATIONS if draw(st.integers(0, 2)) else ARTICULATIONS
+            n["art"] = sorted(draw(st.lists(st.sampled_from(pool), min_size=1, max_size=2, unique=True)))
+        if n["kind"] in ("note", "grace") and draw(st.integers(0, 6)) == 0:
             n["stem"] = draw(st.sampled_from(["up", "down"]))
-        if n["kind"] == "note" and draw(st.integers(0, 9)) == 0:
+        if n["kind"] in ("note", "rest") and draw(st.integers(0, 9)) == 0:
             n["fermata"] = True
-        if n["kind"] == "note" and draw(st.integers(0, 9)) == 0:
+        if n["kind"] in ("note", "grace") and draw(st.integers(0, 9)) == 0:
             n["fingering"] = draw(st.integers(1, 5))
-        is_main_of_grace = any(g.get("grace_next") == n["id"] for g in notes)
         # (the importer links grace notes to pitched main notes only: main notes stay pitched)
-        if n["kind"] == "note" and not n.get("tie_next") and not n.get("tie_prev") and not is_main_of_grace and draw(st.integers(0, 14)) == 0:
+        if n["kind"] == "note" and not n.get("tie_next") and not n.get("tie_prev") and not is_main_of_grace(n) and draw(st.integers(0, 14)) == 0:
             n["kind"] = "unpitched"
     # chords whose members differ in duration (one member shortened)
     by_slot = defaultdict(list)
@@ -70,42 +136,75 @@ def decorate(draw, ps, prefix):
     for key, members in sorted(by_slot.items()):
         if len(members) >= 2 and members[0]["dur"] % 2 == 0 and draw(st.integers(0, 3)) == 0:
             m = members[-1]
-            if not any(g.get("grace_next") == m["id"] for g in notes):
+            if not is_main_of_grace(m):
                 m["dur"] = m["dur"] // 2
                 m["sym"] = None
-    # slurs between pitched notes of one voice (nested / overlapping allowed)
+    # a note held over the next onset(s) of its own voice (polyphony inside a voice with different onsets)
+    if draw(st.integers(0, 3)) == 0:
+        bounds = _seg_bounds(ps)
+        for n in list(notes):
+            if n["kind"] != "note" or n.get("tie_next") or n.get("tie_prev") or (n.get("sym") or {}).get("actual_notes") or n["id"] in tuplet_ends:
+                continue
+            if is_main_of_grace(n):
+                continue
+            if draw(st.integers(0, 3)) != 0:
+                continue
+            end = n["t"] + n["dur"]
+            limit = min([b for b in bounds if b > n["t"]] or [ps["end"]])
+            later = sorted(set(o["t"] + o["dur"] for o in notes if o["voice"] == n["voice"] and o["kind"] != "grace" and o["t"] >= end
+                               and o["t"] + o["dur"] <= limit and o["dur"] > 0))
+            if not later:
+                continue
+            new_end = later[draw(st.integers(0, len(later) - 1))]
+            if _pitch_free(notes, n, _pitch_of(n), n["t"], new_end):
+                n["dur"] = new_end - n["t"]
+                n["sym"] = None
+    # slurs: between notes (also grace notes) of one voice, sometimes between voices; nested / overlapping allowed
     slurs = []
     byvoice = defaultdict(list)
     for n in notes:
-        if n["kind"] in ("note",):
+        if n["kind"] in ("note", "grace"):
             byvoice[n["voice"]].append(n)
-    for v, vn in byvoice.items():
-        vn = sorted(vn, key=lambda n: n["t"])
+    order = {n["id"]: i for i, n in enumerate(notes)}  # grace notes precede their main note in the list
+    pools = [sorted(vn, key=lambda n: (n["t"], order[n["id"]])) for v, vn in sorted(byvoice.items())]
+    if len(pools) >= 2 and draw(st.integers(0, 3)) == 0:
+        pools.append(sorted([n for vn in pools for n in vn], key=lambda n: (n["t"], order[n["id"]])))
+    for vn in pools:
         k = draw(st.integers(0, 3)) if len(vn) >= 2 else 0
         for _ in range(k):
             i = draw(st.integers(0, len(vn) - 2))
             j = draw(st.integers(i + 1, len(vn) - 1))
-            if vn[j]["t"] > vn[i]["t"] and [vn[i]["id"], vn[j]["id"]] not in slurs:
-                slurs.append([vn[i]["id"], vn[j]["id"]])
+            a, b = vn[i], vn[j]
+            later = b["t"] > a["t"] or (b["t"] == a["t"] and a["kind"] == "grace" and b["kind"] == "note" and a["voice"] == b["voice"])
+            if later and [a["id"], b["id"]] not in slurs:
+                slurs.append([a["id"], b["id"]])
     ps["slurs"] = slurs
     bars = [m[0] for m in ps["measures"]]
+    onsets = sorted(set(n["t"] for n in notes))
     tempos = []
     for b in bars:
         if draw(st.integers(0, 4)) == 0:
-            tempos.append([b, draw(st.sampled_from([40, 60, 72, 96, 120, 144])), draw(st.sampled_from([None, "q", "h"]))])
-    ps["tempos"] = tempos
-    onsets = sorted(set(n["t"] for n in notes))
+            t = b
+            if onsets and draw(st.integers(0, 3)) == 0:
+                t = draw(st.sampled_from(onsets))
+            if all(x[0] != t for x in tempos):
+                # (all values are integral in quarters per minute for every unit)
+                tempos.append([t, draw(st.sampled_from([40, 60, 72, 96, 120, 144])), draw(st.sampled_from([None, "q", "h", "e", "q."]))])
+    ps["tempos"] = sorted(tempos, key=lambda x: x[0])
     directions = []
-    nd = draw(st.integers(0, 3))
+    nd = draw(st.integers(0, 4))
     for _ in range(nd):
         kind = draw(st.sampled_from(["dyn", "dyn", "wedge", "words", "pedal", "dashes"]))
         t = draw(st.sampled_from(onsets)) if onsets else 0
         staff = draw(st.sampled_from([None, None, 1, 2]))
+        # (wedges, words and dashed words mostly without a staff, as the importer creates them)
+        staff2 = draw(st.sampled_from([None, None, None, None, 1, 2]))
         if kind == "dyn":
-            directions.append({"k": "dyn", "text": draw(st.sampled_from(DYNAMICS)), "t": t, "staff": staff})
+            pool = BASIC_DYNAMICS if draw(st.booleans()) else DYNAMICS
+            directions.append({"k": "dyn", "text": draw(st.sampled_from(pool)), "t": t, "staff": staff})
         elif kind == "wedge":
             later = [x for x in onsets if x > t] + [ps["end"]]
-            directions.append({"k": "wedge", "text": draw(st.sampled_from(["crescendo", "diminuendo"])), "t": t, "end": draw(st.sampled_from(later)), "staff": None})
+            directions.append({"k": "wedge", "text": draw(st.sampled_from(["crescendo", "diminuendo"])), "t": t, "end": draw(st.sampled_from(later)), "staff": staff2})
         elif kind == "pedal":
             later = [x for x in onsets if x > t] + [ps["end"]]
             e = draw(st.sampled_from(later))
@@ -114,21 +213,84 @@ def decorate(draw, ps, prefix):
                 directions.append({"k": "pedal", "line": draw(st.booleans()), "t": t, "end": e, "staff": staff})
         elif kind == "dashes":
             later = [x for x in onsets if x > t] + [ps["end"]]
-            directions.append({"k": "dashes", "text": draw(st.sampled_from(["cresc.", "dim.", "rit.", "accel."])), "t": t, "end": draw(st.sampled_from(later)), "staff": None})
+            directions.append({"k": "dashes", "text": draw(st.sampled_from(["cresc.", "dim.", "rit.", "accel."])), "t": t, "end": draw(st.sampled_from(later)), "staff": staff2})
         else:
-            directions.append({"k": "words", "text": draw(st.sampled_from(WORDS)), "t": t, "staff": None})
+            pool = BASIC_WORDS if draw(st.booleans()) else WORDS
+            directions.append({"k": "words", "text": draw(st.sampled_from(pool)), "t": t, "staff": staff2})
     ps["directions"] = directions
-    # repeats / endings on bar lines
+    # chord symbols: further elements in the measure stream (their own content is not compared)
+    harmony = []
+    if onsets and draw(st.integers(0, 4)) == 0:
+        for _ in range(draw(st.integers(1, 2))):
+            harmony.append([draw(st.sampled_from(onsets))] + draw(st.sampled_from(CHORD_SYMBOLS)))
+    ps["harmony"] = harmony
+    # fermatas on bar lines (left / right) and between notes inside a measure (middle)
+    bferm = []
+    if draw(st.integers(0, 4)) == 0:
+        for _ in range(draw(st.integers(1, 2))):
+            m = ps["measures"][draw(st.integers(0, len(ps["measures"]) - 1))]
+            inside = [x for x in onsets if m[0] < x < m[1]]
+            ref = draw(st.sampled_from(["left", "right", "right", "middle"] if inside else ["left", "right", "right"]))
+            t = m[0] if ref == "left" else m[1] if ref == "right" else draw(st.sampled_from(inside))
+            if [t, ref] not in bferm:
+                bferm.append([t, ref])
+    ps["bfermatas"] = bferm
+    # repeats / endings on bar lines: any number of non-overlapping repeats, endings with one or several numbers
     repeats, endings = [], []
-    if len(bars) >= 2 and draw(st.integers(0, 3)) == 0:
-        i = draw(st.integers(0, len(bars) - 1))
-        j = draw(st.integers(i, len(bars) - 1))
+    nb = len(bars)
+    i = 0
+    p_repeat = 3 if nb >= 2 else 7
+    while i < nb:
+        if draw(st.integers(0, p_repeat)) != 0:
+            i += 1
+            continue
+        j = draw(st.integers(i, nb - 1))
         repeats.append([bars[i], ps["measures"][j][1]])
-        if j + 1 < len(bars) and j > i and draw(st.booleans()):
-            endings.append([ps["measures"][j][0], ps["measures"][j][1], 1])
-            endings.append([ps["measures"][j + 1][0], ps["measures"][j + 1][1], 2])
+        nxt = j + 1
+        if j + 1 < nb and j > i and draw(st.booleans()):
+            form = draw(st.sampled_from(["1|2", "1|2", "1, 2|3", "1|2|3"]))
+            if form == "1|2|3" and j + 2 < nb and j - 1 > i:
+                endings.append([ps["measures"][j - 1][0], ps["measures"][j - 1][1], 1])
+                endings.append([ps["measures"][j][0], ps["measures"][j][1], 2])
+                endings.append([ps["measures"][j + 1][0], ps["measures"][j + 1][1], 3])
+            elif form == "1, 2|3":
+                endings.append([ps["measures"][j][0], ps["measures"][j][1], "1, 2"])
+                endings.append([ps["measures"][j + 1][0], ps["measures"][j + 1][1], "3"])
+            else:
+                endings.append([ps["measures"][j][0], ps["measures"][j][1], 1])
+                endings.append([ps["measures"][j + 1][0], ps["measures"][j + 1][1], 2])
+            nxt = j + 2
+        i = nxt
     ps["repeats"], ps["endings"] = repeats, endings
     ps["abbr"] = draw(st.sampled_from([None, "Pno.", "Vl."]))
+    # measure names: the running number, a pickup called "0", names that are not numbers, no name
+    scheme = draw(st.sampled_from(["number", "number", "number", "from0", "letters", "some-none"]))
+    measures = [list(m) for m in ps["measures"]]
+    for k, m in enumerate(measures):
+        if scheme == "from0":
+            m[3] = str(k)
+        elif scheme == "letters":
+            m[3] = "X%d" % (k + 1) if k % 2 == 0 else "%da" % k
+        elif scheme == "some-none" and k % 2 == 1:
+            m[3] = None
+    ps["measures"] = measures
+    # staff: a voice that moves between the staves of its part; notes that state no staff
+    nstaves = max([n["staff"] or 1 for n in notes] + [c[1] for c in ps["clefs"]] + [1])
+    if nstaves >= 2 and draw(st.integers(0, 2)) == 0:
+        for n in notes:
+            if draw(st.integers(0, 4)) == 0:
+                n["staff"] = draw(st.integers(1, nstaves))
+    if draw(st.integers(0, 5)) == 0:
+        for n in notes:
+            if draw(st.integers(0, 2)) == 0:
+                n["staff"] = None
+    # voice numbers: any distinct positive numbers instead of 1..k
+    voices = sorted(set(n["voice"] for n in notes))
+    if voices and draw(st.integers(0, 2)) == 0:
+        new = draw(st.lists(st.integers(1, 9), min_size=len(voices), max_size=len(voices), unique=True))
+        vmap = dict(zip(voices, new))
+        for n in notes:
+            n["voice"] = vmap[n["voice"]]
     _untie_ambiguous(ps)
     return ps
 
@@ -163,6 +325,8 @@ def group_tree(draw, n):
     """Any nesting of part groups over parts 0..n-1 in order: groups before, between and after plain
     parts, sibling groups, groups inside groups (every group gets its own number)."""
     counter = [0]
+    # group numbers: one per group, or (as most MusicXML files do) the nesting depth, so that sibling groups share a number
+    by_depth = draw(st.integers(0, 2)) == 0
 
     def level(lo, hi, depth):
         out = []
@@ -172,7 +336,8 @@ def group_tree(draw, n):
             # a group over parts i..j-1, or the plain part i
             if depth < 3 and (j - i >= 2 or draw(st.integers(0, 3)) == 0) and not (depth > 0 and (i, j) == (lo, hi) and draw(st.booleans())):
                 counter[0] += 1
-                node = {"symbol": draw(st.sampled_from(["bracket", "brace", "line", None])), "name": "G%d" % counter[0], "number": counter[0]}
+                node = {"symbol": draw(st.sampled_from(["bracket", "brace", "line", None])), "name": draw(st.sampled_from(["G%d" % counter[0], "G%d" % counter[0], "Strings", None])),
+                        "number": depth + 1 if by_depth else counter[0]}
                 node["children"] = level(i, j, depth + 1)
                 out.append(node)
                 i = j
@@ -199,7 +364,20 @@ def score_spec(draw, tier):
     groups = None
     if n >= 2 and draw(st.integers(0, 3)) > 0:
         groups = draw(group_tree(n))
-    return {"parts": parts, "groups": groups}
+    # how the two public functions are called (argument type, output / input kind, options)
+    api = {"arg": "score", "out": "return", "src": "bytes", "force_note_ids": None, "ignore_invisible": False}
+    if draw(st.integers(0, 1)) == 0:
+        args = ["partlist"]
+        if n == 1:
+            args.append("part")
+        if groups and len(groups) == 1:
+            args.append("group")
+        api["arg"] = draw(st.sampled_from(args + ["score"]))
+        api["out"] = draw(st.sampled_from(["return", "path", "file"]))
+        api["src"] = draw(st.sampled_from(["bytes", "path", "mxl"]))
+        api["force_note_ids"] = draw(st.sampled_from([None, "keep"]))
+        api["ignore_invisible"] = draw(st.booleans())
+    return {"parts": parts, "groups": groups, "api": api}
 
 
 def build(sspec):
@@ -217,15 +395,21 @@ def build(sspec):
                 p.add(ob, d["t"])
             elif d["k"] == "wedge":
                 cls = S.IncreasingLoudnessDirection if d["text"] == "crescendo" else S.DecreasingLoudnessDirection
-                p.add(cls(d["text"], wedge=True), d["t"], d["end"])
+                p.add(cls(d["text"], wedge=True, staff=d.get("staff")), d["t"], d["end"])
             elif d["k"] == "pedal":
                 p.add(S.SustainPedalDirection(line=d["line"], staff=d["staff"]), d["t"], d["end"])
             elif d["k"] == "dashes":
                 for ob in parse_direction(d["text"]):
+                    ob.staff = d.get("staff")
                     p.add(ob, d["t"], d["end"] if isinstance(ob, S.DynamicDirection) else None)
             else:
                 for ob in parse_direction(d["text"]):
+                    ob.staff = d.get("staff")
                     p.add(ob, d["t"])
+        for (t, root, kind) in ps.get("harmony", []):
+            p.add(S.ChordSymbol(root=root, kind=kind), t)
+        for (t, ref) in ps.get("bfermatas", []):
+            p.add(S.Fermata(ref), t)
         for (a, b) in ps.get("repeats", []):
             p.add(S.Repeat(), a, b)
         for (a, b, num) in ps.get("endings", []):
@@ -404,6 +588,57 @@ def compare_fingerprints(o, a, b):
                     break
 
 
+# ------------------------------------------------------------------ the two public functions, called in every documented way
+def _save(score, parts, api):
+    """save_musicxml(score_data, out): score_data a Score, a list of parts / part groups, a Part or a PartGroup;
+    out None (bytes are returned), a path or a file-like object."""
+    arg = api.get("arg", "score")
+    if arg == "partlist":
+        data = list(score.part_structure)
+    elif arg == "part":
+        data = parts[0]
+    elif arg == "group":
+        data = score.part_structure[0]
+    else:
+        data = score
+    out = api.get("out", "return")
+    if out == "path":
+        with tempfile.TemporaryDirectory() as d:
+            fn = os.path.join(d, "out.musicxml")
+            call(save_musicxml, data, fn)
+            with open(fn, "rb") as f:
+                return f.read()
+    if out == "file":
+        buf = io.BytesIO()
+        call(save_musicxml, data, buf)
+        return buf.getvalue()
+    return call(save_musicxml, data)
+
+
+def _load(xml_bytes, api):
+    """load_musicxml(filename, force_note_ids, ignore_invisible_objects): a file-like object, a path, or a
+    compressed .mxl file; 'keep' keeps every id that is present; nothing in the written file is invisible."""
+    kw = {}
+    if api.get("force_note_ids"):
+        kw["force_note_ids"] = api["force_note_ids"]
+    if api.get("ignore_invisible"):
+        kw["ignore_invisible_objects"] = True
+    src = api.get("src", "bytes")
+    if src == "bytes":
+        return call(load_musicxml, io.BytesIO(xml_bytes), **kw)
+    with tempfile.TemporaryDirectory() as d:
+        fn = os.path.join(d, "in.musicxml")
+        with open(fn, "wb") as f:
+            f.write(xml_bytes)
+        if src == "mxl":
+            zn = os.path.join(d, "in.mxl")
+            with zipfile.ZipFile(zn, "w") as z:
+                z.writestr("META-INF/container.xml", "<container/>")
+                z.write(fn, "in.musicxml")
+            fn = zn
+        return call(load_musicxml, fn, **kw)
+
+
 # ------------------------------------------------------------------ oracle
 def oracle(spec):
     o = Outcome()
@@ -434,13 +669,90 @@ def oracle(spec):
             if n["kind"] == "note":
                 slots[(n["t"], n["voice"])].add(n["dur"])
         feats["unequal-chord"] += any(len(v) > 1 for v in slots.values())
+        # ---- shapes added by the generator audit
+        real = [n for n in ps["notes"] if n["kind"] != "grace"]
+        feats["overlap-in-voice"] += any(a is not b and a["voice"] == b["voice"] and a["kind"] == "note" and a["t"] < b["t"] < a["t"] + a["dur"] for a in real for b in real)
+        gap_end = empty = gap_inside = False
+        for m in ps["measures"]:
+            inm = [n for n in real if m[0] <= n["t"] < m[1]]
+            empty = empty or not inm
+            gap_end = gap_end or max([n["t"] + n["dur"] for n in inm] + [m[0]]) < m[1]
+            for v in set(n["voice"] for n in inm):
+                vn = sorted((n["t"], n["t"] + n["dur"]) for n in inm if n["voice"] == v)
+                reach = m[0]
+                for (a, b) in vn:
+                    gap_inside = gap_inside or (a > reach and reach > m[0])
+                    reach = max(reach, b)
+        feats["measure-not-filled-to-its-end"] += gap_end
+        feats["empty-measure"] += empty
+        feats["gap-inside-voice"] += gap_inside
+        byid = {n["id"]: n for n in ps["notes"]}
+        tied_into = Counter()
+        for n in ps["notes"]:
+            if n.get("tie_next"):
+                tied_into[(byid[n["tie_next"]]["t"], byid[n["tie_next"]]["voice"])] += 1
+                feats["tie-between-voices"] += n["voice"] != byid[n["tie_next"]]["voice"]
+        feats["chord-with-two-ties"] += any(v >= 2 for v in tied_into.values())
+        chain_bars = 0
+        for n in ps["notes"]:
+            if n.get("tie_next") and not n.get("tie_prev"):
+                cur = n
+                while cur.get("tie_next"):
+                    cur = byid[cur["tie_next"]]
+                chain_bars = max(chain_bars, sum(1 for b in bars_ if n["t"] < b <= cur["t"]))
+        feats["tie-chain-over-2-barlines"] += chain_bars >= 2
+        vs = sorted(set(n["voice"] for n in ps["notes"]))
+        feats["voice-numbers-not-1..k"] += bool(vs) and vs != list(range(1, len(vs) + 1))
+        by_voice_staff = defaultdict(set)
+        for n in ps["notes"]:
+            by_voice_staff[n["voice"]].add(n["staff"] or 1)
+        feats["voice-on-two-staves"] += any(len(v) > 1 for v in by_voice_staff.values())
+        feats["staff-none"] += any(n["staff"] is None for n in ps["notes"])
+        feats["staff-3"] += any((n["staff"] or 1) >= 3 for n in ps["notes"])
+        for a, b in ps.get("slurs", []):
+            feats["slur-on-grace"] += byid[a]["kind"] == "grace" or byid[b]["kind"] == "grace"
+            feats["slur-between-voices"] += byid[a]["voice"] != byid[b]["voice"]
+        for tp in ps.get("tuplets", []):
+            feats["tuplet-edge-rest"] += byid[tp[0]]["kind"] == "rest" or byid[tp[1]]["kind"] == "rest"
+        feats["articulation-beyond-basic-5"] += any(a not in BASIC_ARTICULATIONS for n in ps["notes"] for a in n.get("art", []))
+        feats["decorated-grace-or-rest"] += any((n["kind"] == "grace" and (n.get("stem") or n.get("fingering"))) or (n["kind"] == "rest" and n.get("fermata")) for n in ps["notes"])
+        feats["tempo-mid-bar"] += any(t[0] not in bars_ for t in ps.get("tempos", []))
+        feats["tempo-unit-e-or-dotted"] += any(t[2] in ("e", "q.") for t in ps.get("tempos", []))
+        dirs = ps.get("directions", [])
+        feats["dynamics-beyond-basic-6"] += any(d["k"] == "dyn" and d["text"] not in BASIC_DYNAMICS for d in dirs)
+        feats["words-beyond-basic-4"] += any(d["k"] == "words" and d["text"] not in BASIC_WORDS for d in dirs)
+        feats["plain-words-object"] += any(d["k"] == "words" and d["text"] in PLAIN_WORDS for d in dirs)
+        feats["staff-on-wedge-words-dashes"] += any(d["k"] in ("wedge", "words", "dashes") and d.get("staff") for d in dirs)
+        feats["chord-symbol"] += bool(ps.get("harmony"))
+        feats["barline-fermata"] += bool(ps.get("bfermatas"))
+        feats["repeats>=2"] += len(ps.get("repeats", [])) >= 2
+        feats["ending-with-number-list-or-3-endings"] += any(str(e[2]) not in ("1", "2") for e in ps.get("endings", []))
+        feats["measure-name-not-number"] += any(m[3] != str(m[2]) for m in ps["measures"])
+        feats["clef-without-line"] += any(c[3] is None for c in ps["clefs"])
     for k, v in feats.items():
         o.cls(k, v > 0)
     o.cls("part-groups", bool(spec.get("groups")))
     o.cls("parts>=2", len(ps_list) >= 2)
+
+    def flat(nodes, depth=1):
+        for x in nodes or []:
+            if isinstance(x, dict):
+                yield (depth, x)
+                for y in flat(x["children"], depth + 1):
+                    yield y
+
+    groups = list(flat(spec.get("groups")))
+    numbers = [g["number"] for _, g in groups]
+    o.cls("group-number-shared", len(set(numbers)) < len(numbers))
+    o.cls("group-without-name", any(g.get("name") is None for _, g in groups))
+    api = spec.get("api") or {}
+    o.cls("save-arg-" + api.get("arg", "score"), True)
+    o.cls("save-out-" + api.get("out", "return"), True)
+    o.cls("load-src-" + api.get("src", "bytes"), True)
+    o.cls("load-options", bool(api.get("force_note_ids") or api.get("ignore_invisible")))
     o.nontrivial = feats["multi-voice-or-staff"] > 0 or feats["tie-over-barline"] > 0 or feats["mid-bar-change"] > 0
 
-    xml1 = call(save_musicxml, score)
+    xml1 = _save(score, parts, api)
     # ---- A: independent reading ---------------------------------------------------------
     read = read_sounding_notes(xml1)
     for ps in ps_list:
@@ -454,12 +766,12 @@ def oracle(spec):
                   extra=[[str(x) for x in k] for k in sorted((got - exp).elements())[:3]])
     # ---- B: fingerprint after reload -------------------------------------------------------
     fp_a = fingerprint(score)
-    score2 = call(load_musicxml, io.BytesIO(xml1))
+    score2 = _load(xml1, api)
     fp_b = fingerprint(score2)
     compare_fingerprints(o, fp_a, fp_b)
     # ---- C: byte fixpoint ---------------------------------------------------------------------
     xml2 = call(save_musicxml, score2)
-    poly = feats["unequal-chord"] > 0
+    poly = feats["unequal-chord"] > 0 or feats["overlap-in-voice"] > 0
     if xml2 != xml1 and poly:
         # the exporter re-numbers voices for polyphony inside a voice (known finding), so the
         # reloaded score legitimately differs in voice numbers: only the importer-obtained score
